@@ -81,4 +81,12 @@ theorem runCommand_during_internal (w : World) (t : FdTable) (k : Kind) (rs : Li
     · rw [hfd]; exact .inr hge
     · rw [htd, isCloexec_congr (hframe fd hfd)] at hc; exact hguard fd hc
 
+/-- the intermediate states a trace carries are those of the guard's loop on this command's list -/
+theorem runCommand_steps (w : World) (t : FdTable) (k : Kind) (rs : List Redir) (prev : Nat)
+    (steps : List (World × FdTable)) (cause : Option ErrCause)
+    (h : (runCommand w t k rs prev).steps = some (steps, cause)) :
+    steps = performSteps worldOracle w t rs ∧ cause = (performRedirs worldOracle w t rs).err := by
+  unfold runCommand at h
+  cases k <;> simp only at h <;> (repeat' split at h) <;> simp_all
+
 end YashModel.Redir
